@@ -11,7 +11,7 @@ META = {
                   "code applies them. TLC model-checks all 256 selectors x 25 boundary lengths x 12 abstract output lengths (126 854 states) for "
                   "never-expand, prefix-iff-shrunk, supported-selectors-succeed, own-output-accepted (outside the named 1000:1 region) and "
                   "decode-is-reverse-of-encode (outside named, TLC-proved-exact dispatch deviations). TLC then enumerates "
-                  "selector x length x content-class cases, ratio-target cases around the limits the model knows, and call-history cases; the driver runs the real compress / decompress / decompress_secure on each (child processes, per-case watchdog); "
+                  "selector x length x content-class cases, ratio-target cases around the limits the model knows, session-volume history cases, and call histories (CodecHist.tla: a failed call -- damaged stream of every damage kind, refused compress -- between round trips of the selectors the model says it endangers, on two threads; TLC proves CallIndependent for per-call codec objects and refutes it for per-thread / per-process ones); the driver runs the real compress / decompress / decompress_secure on each (child processes, per-case watchdog); "
                   "TLC validates every recorded round trip against the model (content equality as token equality).",
     "level_note": "Byte-level correctness of zlib/bzip2/LZMA/PKWare/sparse is observed (token equality on the enumerated classes), not "
                   "modelled: codecs are uninterpreted stages in Codec.tla. ADPCM (lossy): length, lane-swap equivariance and "
@@ -43,6 +43,14 @@ def run(ctx, cases_override=None):
     if "Invariant HistoryIndependent is violated" not in text:
         raise core.ToolError("stage A: negative control MC_Codec_neg: no counterexample to HistoryIndependent:\n" + core._tail(text))
     core.log("(A) MC_Codec/MC_Codec_neg: negative control ok (shared session tracker violates HistoryIndependent)")
+    # call histories (CodecHist): with the code's scope TLC proves CallIndependent over all histories of <= 3 calls; with stage
+    # state that outlives a call (per thread / per process) it must refute it
+    ctx.mc("MC_CodecHist", workers=4, timeout=300, expect_actions=["HGood", "HBad", "HBadC"])
+    for neg in ("MC_CodecHist_thread", "MC_CodecHist_process"):
+        rc, text = ctx.tlc("MC_CodecHist", neg, workers=2, timeout=300, tag="mc-neg")
+        if "Invariant CallIndependent is violated" not in text:
+            raise core.ToolError(f"stage A: negative control {neg}: no counterexample to CallIndependent:\n" + core._tail(text))
+    core.log("(A) MC_CodecHist_thread/_process: negative controls ok (stage state kept after a failed call violates CallIndependent)")
     if cases_override:
         cases, ncases = cases_override, sum(1 for _ in open(cases_override))
     else:
@@ -55,8 +63,11 @@ def run(ctx, cases_override=None):
         for line in f:
             r = json.loads(line)
             if r["ev"] != "RT":
-                if r["ev"] in ("Hang", "Abort", "Hist"):
+                if r["ev"] in ("Hang", "Abort", "Hist", "HangDamaged", "AbortDamaged"):
                     kinds[r["ev"]] = kinds.get(r["ev"], 0) + 1
+                if r["ev"] == "Call":
+                    k = "call-" + r["op"] + (":" + r["bres"] if r["op"] != "good" else "")
+                    kinds[k] = kinds.get(k, 0) + 1
                 continue
             k = "compress-" + r["cres"] if r["cres"] != "ok" else ("raw" if r["raw"] else "shrunk:" + r["dres"])
             kinds[k] = kinds.get(k, 0) + 1
@@ -72,7 +83,8 @@ def run(ctx, cases_override=None):
         "rule": "one evaluation = one compress(+decompress+decompress_secure) round trip of the real code judged by TLC; "
                 "non-trivial = compress succeeded and did not store raw (distinct (selector, length, class)); ratio-target cases "
                 "are round trips at a length found by bisection over the real compressor; a Hist event = one unit decompressed k "
-                "times in one process (counted in `outcomes`)",
+                "times in one process; a Call event = one op of a call history (round trip / damaged decompress / refused compress "
+                "on one of two threads) stepping CodecHist (both counted in `outcomes`)",
         "cases_generated_by_tlc": ncases,
         "outcomes": kinds,
         "exhaustive": False,
@@ -86,6 +98,8 @@ def run(ctx, cases_override=None):
 
 def replay(ctx, payload):
     ev = payload.get("event") or {}
+    if ev.get("ev") != "RT":      # a call of a history (or a Hist / Hang event): the whole generated set is re-run
+        return run(ctx)
     sel = ctx.path("replay-cases.ndjson")
     with open(sel, "w") as f:
         f.write(json.dumps({"m": ev["m"], "len": ev["len"], "cls": ev["cls"]}) + "\n")
